@@ -1,9 +1,10 @@
 (* get_libraries: the candidates enumerated by the loop of Query/Enum.v are exactly the elements named
    by the declarative specification Query/EnumSpec.v, for every kind of root, both selections and
-   both settings of recursive - EXCEPT from an instance with selection OUTSIDE and recursive=True,
-   where the code's "object_collection += parent" iterates the keys of the parent definition's
-   dictionary instead of appending it, so nothing above the parent is reached
-   (cands_libraries_spec, libraries_instance_outside_recursive). *)
+   both settings of recursive (cands_libraries_spec). The former exception - from an instance with
+   selection OUTSIDE and recursive=True the code's "object_collection += parent" iterated the keys of
+   the parent definition's dictionary instead of appending it - is repaired in the code and the
+   model follows: the parent definition is appended (libraries_instance_outside_recursive states the
+   repaired case on its own). *)
 From Coq Require Import List Arith Bool Lia Relations.
 From SV Require Import Base.Base IR.State IR.NS IR.Ops Proofs.Inv1a Proofs.Inv2a Proofs.InvW
   Hier.Paths Hier.Enum Hier.Trace Proofs.KindD Query.Filter Query.Enum Query.EnumSpec
@@ -82,11 +83,14 @@ Proof.
 Qed.
 
 Lemma l_inst_out x a : kind_of s x = Some KInstance -> inside = false ->
-  (In a (A (IE x)) <-> exists p e, par s RChildren x = Some p /\ par s RDefs p = Some e /\ a = lmark false e).
+  (In a (A (IE x)) <-> exists p, par s RChildren x = Some p /\
+     ((exists e, par s RDefs p = Some e /\ a = lmark false e) \/ (rec = true /\ a = APush (IE p)))).
 Proof.
   intros Hk Hi. cbn [acts_libraries]. rewrite Hk, Hi. destruct (par s RChildren x) as [p|].
-  - rewrite in_mark_lib_of. split; [intros (e & He & ->); exists p, e; auto|intros (p' & e & E & He & ->); injection E as <-; exists e; auto].
-  - split; [intros []|intros (p' & e & E & _); discriminate].
+  - rewrite in_app_iff, in_mark_lib_of. split.
+    + intros [H|H]; exists p; (split; [reflexivity|]); [left; exact H|right]. destruct rec; [|destruct H]. destruct H as [<-|[]]. auto.
+    + intros (p' & E & H). injection E as <-. destruct H as [H|(Er & ->)]; [left; exact H|right; rewrite Er; left; reflexivity].
+  - split; [intros []|intros (p' & E & _); discriminate].
 Qed.
 
 Lemma R_kind d r : R d r -> kind_of s r = Some KDefinition.
@@ -111,7 +115,8 @@ Proof.
     + destruct inside.
       * destruct (iref s x); [|destruct H]. apply in_app_or in H as [H|H]; [apply (Hm _ _ H)|].
         destruct rec; [|destruct H]. apply in_push_ids in H as (z & _ & E). discriminate E.
-      * destruct (par s RChildren x); [|destruct H]. apply (Hm _ _ H).
+      * destruct (par s RChildren x); [|destruct H]. apply in_app_or in H as [H|H]; [apply (Hm _ _ H)|].
+        destruct rec; [|destruct H]. destruct H as [E|[]]. discriminate E.
     + destruct H.
   - intros [E|[]]. discriminate E.
   - intros [].
@@ -137,7 +142,8 @@ Proof.
       * destruct inside.
         -- destruct (iref s x); [|destruct Ha]. apply in_app_or in Ha as [H|H]; [apply (Hm _ _ H)|].
            destruct rec; [|destruct H]. apply in_push_ids in H as (z & _ & E). discriminate E.
-        -- destruct (par s RChildren x); [|destruct Ha]. apply (Hm _ _ Ha).
+        -- destruct (par s RChildren x); [|destruct Ha]. apply in_app_or in Ha as [H|H]; [apply (Hm _ _ H)|].
+           destruct rec; [|destruct H]. destruct H as [E|[]]. discriminate E.
       * destruct Ha.
     + destruct Ha as [E|[]]. discriminate E.
     + destruct Ha.
@@ -254,14 +260,16 @@ Proof.
   - rewrite (up_marks d c Hk Hi). rewrite Hi. tauto.
 Qed.
 
-(* what the CODE reaches from an instance; OUTSIDE, recursive or not: the parent's library only *)
+(* what the CODE reaches from an instance; OUTSIDE: the library of the definition it sits in and
+   (recursive) of everything above it *)
 Definition inst_code (x c : id) : Prop :=
   if inside then exists d0, iref s x = Some d0 /\ libs_of_def s rec true d0 c
-  else exists p, par s RChildren x = Some p /\ par s RDefs p = Some c.
+  else exists p d', par s RChildren x = Some p /\ star (used_by s) rec p d' /\ par s RDefs d' = Some c.
 
 Lemma inst_code_in x c : inside = true -> (inst_code x c <-> exists d0, iref s x = Some d0 /\ libs_of_def s rec true d0 c).
 Proof. intro Hi. unfold inst_code. rewrite Hi. tauto. Qed.
-Lemma inst_code_out x c : inside = false -> (inst_code x c <-> exists p, par s RChildren x = Some p /\ par s RDefs p = Some c).
+Lemma inst_code_out x c : inside = false ->
+  (inst_code x c <-> exists p d', par s RChildren x = Some p /\ star (used_by s) rec p d' /\ par s RDefs d' = Some c).
 Proof. intro Hi. unfold inst_code. rewrite Hi. tauto. Qed.
 
 Lemma static_inst x c : kind_of s x = Some KInstance -> (Marks A (IE x) c <-> inst_code x c).
@@ -274,13 +282,21 @@ Proof.
       intros (y & os & ys & Hr & Ha). exfalso.
       assert (Hnone : forall a, ~ In a (A (IE x))) by (intros a H; apply (l_inst_in x a Hk Hi) in H as (d & E & _); congruence).
       apply reach_inv in Hr as [<-|(z & (a & Ha' & _) & _)]; [apply (Hnone _ Ha)|apply (Hnone _ Ha')].
-  - split.
-    + intros (y & os & ys & Hr & Ha).
-      assert (Hy : y = IE x).
-      { apply reach_inv in Hr as [<-|(z & (a & Ha' & Hz) & _)]; [reflexivity|].
-        apply (l_inst_out x a Hk Hi) in Ha' as (p & e & _ & _ & ->). destruct Hz. }
-      subst y. apply (l_inst_out x _ Hk Hi) in Ha as (p & e & Hp & He & E). unfold lmark in E. injection E as -> _ _. exists p. auto.
-    + intros (p & Hp & He). exists (IE x), [OOth c], []. split; [apply reach_refl|]. apply (l_inst_out x _ Hk Hi). exists p, c. auto.
+  - rewrite marks_unfold. split.
+    + intros [(os & ys & Ha)|(y & (a & Ha & Hy) & Hm)].
+      * apply (l_inst_out x _ Hk Hi) in Ha as (p & Hp & [(e & He & E)|(_ & E)]); [|discriminate E].
+        unfold lmark in E. injection E as -> _ _. exists p, p. split; [exact Hp|split; [apply star_refl|exact He]].
+      * apply (l_inst_out x _ Hk Hi) in Ha as (p & Hp & [(e & _ & ->)|(Er & ->)]); [destruct Hy|]. destruct Hy as [<-|[]].
+        apply (up_marks p c (par_parent_kind s W _ _ _ Hp) Hi) in Hm as (d' & Hpl & He). exists p, d'. split; [exact Hp|split; [|exact He]].
+        apply plus_cases in Hpl as [[_ Hpl]|[Er' _]]; [|congruence]. apply (star_rt _ _ _ _ Er).
+        apply t_split_l in Hpl as (b & Hpb & Hs). eapply rt_trans; [apply rt_step; exact Hpb|exact Hs].
+    + intros (p & d' & Hp & Hs & He). apply star_cases in Hs as [[Er Hs]|[_ <-]].
+      * apply clos_rt_rt1n in Hs. destruct Hs as [|b d'' Hpb Hs].
+        -- left. exists [OOth c], []. apply (l_inst_out x _ Hk Hi). exists p. split; [exact Hp|left; exists c; auto].
+        -- right. exists (IE p). split; [exists (APush (IE p)); split; [|left; reflexivity]; apply (l_inst_out x _ Hk Hi); exists p; auto|].
+           apply (up_marks p c (par_parent_kind s W _ _ _ Hp) Hi). exists d''. split; [|exact He]. unfold plus. rewrite Er.
+           apply t_split_l. exists b. split; [exact Hpb|apply clos_rt1n_rt; exact Hs].
+      * left. exists [OOth c], []. apply (l_inst_out x _ Hk Hi). exists p. split; [exact Hp|left; exists c; auto].
 Qed.
 
 (* ---- from a library: the marks drive the walk ---- *)
@@ -323,7 +339,8 @@ Proof.
     + exfalso. destruct inside.
       * destruct (iref s x); [|destruct H]. apply in_app_or in H as [H|H]; [apply (Hm _ _ H)|].
         destruct rec; [|destruct H]. apply in_push_ids in H as (z & _ & E). discriminate E.
-      * destruct (par s RChildren x); [|destruct H]. apply (Hm _ _ H).
+      * destruct (par s RChildren x); [|destruct H]. apply in_app_or in H as [H|H]; [apply (Hm _ _ H)|].
+        destruct rec; [|destruct H]. destruct H as [E|[]]. discriminate E.
     + destruct H.
   - intros [E|[]]. discriminate E.
   - intros [].
@@ -354,7 +371,8 @@ Proof.
   - destruct (bool_cases inside) as [Hi|Hi].
     + apply (l_inst_in z a Hk Hi) in Ha as (r & _ & [(e & _ & ->)|(_ & ch & Hch & ->)]); [destruct Hb|]. destruct Hb as [<-|[]].
       cbn. rewrite (kid_kind s W _ _ _ Hch). discriminate.
-    + apply (l_inst_out z a Hk Hi) in Ha as (p & e & _ & _ & ->). destruct Hb.
+    + apply (l_inst_out z a Hk Hi) in Ha as (p & Hp & [(e & _ & ->)|(_ & ->)]); [destruct Hb|]. destruct Hb as [<-|[]].
+      cbn. rewrite (par_parent_kind s W _ _ _ Hp). discriminate.
   - cbn [acts_libraries] in Ha. rewrite Hk in Ha. destruct Ha.
 Qed.
 
@@ -386,7 +404,8 @@ Proof.
     split; [exists p; split; [reflexivity|left; apply (par_parent_kind s W _ _ _ Hp)]|apply D1; exact Ha'].
   - pose proof Ha as Ha'. apply (l_inst_in z a Hk Hi) in Ha as (r & _ & [(e & _ & ->)|(_ & ch & Hch & ->)]); [destruct Hb|]. destruct Hb as [<-|[]].
     split; [exists ch; split; [reflexivity|right; apply (kid_kind s W _ _ _ Hch)]|apply D1; exact Ha'].
-  - apply (l_inst_out z a Hk Hi) in Ha as (p & e & _ & _ & ->). destruct Hb.
+  - pose proof Ha as Ha'. apply (l_inst_out z a Hk Hi) in Ha as (p & Hp & [(e & _ & ->)|(_ & ->)]); [destruct Hb|]. destruct Hb as [<-|[]].
+    split; [exists p; split; [reflexivity|left; apply (par_parent_kind s W _ _ _ Hp)]|apply D1; exact Ha'].
 Qed.
 
 Lemma flat_complete st' x c : flatitem (IE x) -> Done A st' (IE x) -> Marks A (IE x) c -> In c (w_marks st').
@@ -564,37 +583,28 @@ Proof.
       pose proof (mark_shape y e os ys Ha) as ->. apply Hos. left. reflexivity.
 Qed.
 
-(* the code agrees with the specification except from an instance, OUTSIDE, recursive *)
-Lemma code_is_spec x e :
-  ~ (rec = true /\ inside = false /\ kind_of s x = Some KInstance) ->
-  (libsB_code x e <-> libsB_elem s rec inside x e).
+(* the code agrees with the specification *)
+Lemma code_is_spec x e : libsB_code x e <-> libsB_elem s rec inside x e.
 Proof.
-  intro Hn. unfold libsB_code, libsB_elem. destruct (kind_of s x) as [[]|] eqn:Hk; try tauto.
-  destruct (bool_cases inside) as [Hi|Hi].
-  - rewrite (inst_code_in x e Hi), Hi. tauto.
-  - rewrite (inst_code_out x e Hi), Hi. destruct (bool_cases rec) as [Er|Er]; [exfalso; apply Hn; auto|].
-    rewrite Er. unfold star. split.
-    + intros (p & Hp & He). exists p, p. auto.
-    + intros (p & d' & Hp & <- & He). exists p. auto.
+  unfold libsB_code, libsB_elem. destruct (kind_of s x) as [[]|] eqn:Hk; try tauto.
 Qed.
 
 Theorem cands_libraries_spec fuel it ps os :
   cands_libraries s fuel [it] rec inside = WOk (ps, os) ->
-  ~ (rec = true /\ inside = false /\ exists x, item_owner s it x /\ kind_of s x = Some KInstance) ->
   (forall e, (exists p, In p ps /\ In e (kids s RLibs p)) <-> reachA_libraries s it e) /\
   (forall e, In e os <-> reachB_libraries s rec inside it e) /\ NoDup os.
 Proof.
-  intros H Hn. destruct (cands_libraries_code fuel it ps os H) as (HA & HB & HN). split; [exact HA|split; [|exact HN]].
+  intros H. destruct (cands_libraries_code fuel it ps os H) as (HA & HB & HN). split; [exact HA|split; [|exact HN]].
   intro e. rewrite HB. unfold reachB_libraries.
-  split; intros (x & Hx & Hc); exists x; (split; [exact Hx|]); apply (code_is_spec x e); try exact Hc;
-    intros (Er & Hi & Hk); apply Hn; (split; [exact Er|split; [exact Hi|exists x; auto]]).
+  split; intros (x & Hx & Hc); exists x; (split; [exact Hx|]); apply (code_is_spec x e); exact Hc.
 Qed.
 
-(* the excluded case: recursive is ignored *)
+(* the formerly excluded case (recursive was ignored), now as specified: from an instance, OUTSIDE,
+   the library of the enclosing definition and, recursive, of every definition above it *)
 Theorem libraries_instance_outside_recursive fuel it ps os x :
   cands_libraries s fuel [it] rec inside = WOk (ps, os) ->
   inside = false -> item_owner s it x -> kind_of s x = Some KInstance ->
-  forall e, In e os <-> exists p, par s RChildren x = Some p /\ par s RDefs p = Some e.
+  forall e, In e os <-> exists p d', par s RChildren x = Some p /\ star (used_by s) rec p d' /\ par s RDefs d' = Some e.
 Proof.
   intros H Hi Hx Hk e. destruct (cands_libraries_code fuel it ps os H) as (_ & HB & _). rewrite HB. split.
   - intros (x' & Hx' & Hc). assert (x' = x).
